@@ -487,6 +487,48 @@ where
     }
 }
 
+/// A value near `v` from one of the classes of doubles that data arrives in: representable in
+/// a narrower float (f32, or any mantissa cut to k bits), a dyadic fraction k/2^m, a short
+/// decimal, an integer, a power of two.  Code that treats such values specially (shorter
+/// encodings, fast paths, exact comparisons) is only reached through them.
+pub fn snap_float<R: rand::Rng>(rng: &mut R, v: f64) -> f64 {
+    if !v.is_finite() || v == 0. {
+        return v;
+    }
+    let out = match rng.gen_range(0, 7) {
+        0 => (v as f32) as f64,
+        1 => {
+            let m = rng.gen_range(1, 25);
+            let s = 2f64.powi(m);
+            (v * s).round() / s
+        }
+        2 => {
+            let d = rng.gen_range(0usize, 9);
+            format!("{:.*e}", d, v).parse().unwrap_or(v)
+        }
+        3 => v.round(),
+        4 => v.signum() * 2f64.powi(v.abs().log2().round() as i32),
+        5 => {
+            // mantissa cut to k bits
+            let k = rng.gen_range(1u32, 52);
+            f64::from_bits(v.to_bits() & !((1u64 << (52 - k)) - 1))
+        }
+        _ => {
+            // f32 value with a long decimal expansion: an odd multiple of a small power of two
+            let m = rng.gen_range(8, 24);
+            let s = 2f64.powi(m);
+            let k = (v * s).round();
+            let k = if (k as i64) % 2 == 0 { k + 1. } else { k };
+            ((k / s) as f32) as f64
+        }
+    };
+    if out.is_finite() {
+        out
+    } else {
+        v
+    }
+}
+
 pub fn f64_bits_vec(v: &[f64]) -> Vec<u64> {
     v.iter().map(|x| x.to_bits()).collect()
 }
